@@ -17,10 +17,11 @@ never looks at the real field object):
 
 Clauses of the documentation the reference takes literally (violations ARE reported, each with its own
 witness_key): "Validation errors should raise a ValueError" (IntField/PortField(inf) leak an OverflowError);
-`field.to_python(field.to_basic(value)) == value` for every accepted value, including '' for SecureField
-('' -> None), None for typed List/DictField (None -> [] / {}) and a tuple accepted unchanged by an untyped
-ListField (() -> []); "never rejects an accepted result" also when the result is the canonical network text or
-the absolute path produced by `startdir` and an inherited max_len/min_len/regex/choices judges it again.
+`field.to_python(field.to_basic(value)) == value` for every accepted value, read modulo the three normalisations
+property C02 allows for the on-disk round trip (see inv_norm: '' secret == None; unset typed list/dict == empty one,
+at any depth; tuple in an untyped ListField == list of its items); "never rejects an accepted result" also when the
+result is the canonical network text or the absolute path produced by `startdir` and an inherited
+max_len/min_len/regex/choices judges it again.
 
 Documentation-silent points on which the reference deliberately FOLLOWS the implementation (not flagged):
   * order of the StringField transforms (strip, required-empty, case, then constraints): given by the property
@@ -605,6 +606,36 @@ def deep_eq(a, b):
     return bool(a == b)
 
 
+def inv_norm(fs, v):
+    """normal form of a stored value for the comparison of the inverse clause.  Property C02 names three allowed
+    normalisations of the on-disk round trip, so C05's "equal" is read modulo them: (a) an empty secret '' is the
+    same as None; (b) an unset (None) typed list / dict is the same as an empty one, at any nesting depth; (c) a tuple
+    stored in an untyped ListField is the same as the list of its items.  Typed containers are compared by content
+    (plain list / dict of normalised items)."""
+    cls = fs.cls
+    if cls == "SecureField":
+        return None if isinstance(v, str) and v == "" else v
+    if cls == "ListField":
+        item = fs.get("field")
+        if item is None or item.cls == "AnyField":
+            return list(v) if isinstance(v, tuple) else v
+        if v is None:
+            return []
+        if isinstance(v, (list, tuple)):
+            return [inv_norm(item, i) for i in v]
+        return v
+    if cls == "DictField":
+        kf, vf = fs.get("key_field"), fs.get("value_field")
+        if kf is None and vf is None:
+            return v
+        if v is None:
+            return {}
+        if isinstance(v, dict):
+            return {inv_norm(kf or ANY, k): inv_norm(vf or ANY, x) for k, x in dict.items(v)}
+        return v
+    return v
+
+
 def conforms(norm, r):
     """is the real result r the reference normal form?"""
     from cincoconfig.fields.dict_field import DictProxy
@@ -828,7 +859,7 @@ def check_case(b, x, env):
             if not okp:
                 fail("inverse", "to_python(to_basic(v)) raised %s for v = %s" % (show(back, 60), show(r1, 40)),
                      "to_python-raised")
-            elif not deep_eq(back, r1):
+            elif not deep_eq(inv_norm(fs, back), inv_norm(fs, r1)):
                 fail("inverse", "v = %s, to_python(to_basic(v)) = %s" % (show(r1, 40), show(back, 40)), "differs")
     return fails
 
